@@ -3,7 +3,7 @@ import random
 
 from vlib import *  # noqa
 
-CLAUSES = {"put_ret", "get_ret", "remove_ret", "premature_drop", "double_drop", "leak", "panic", "abort", "hang"}
+CLAUSES = {"put_ret", "get_ret", "remove_ret", "premature_drop", "double_drop", "leak", "plain_leak", "panic", "abort", "hang"}
 
 
 def cfg(nco, keys, maxops, view):
